@@ -15,6 +15,16 @@ CHECKS = {
          "Every decoder fed by peers or disk is run on all truncations of valid encodings, on every 4-byte window of the leading 200 bytes (and embedded transaction headers) overwritten with boundary values, on every value of each leading byte, on random strings and on random mutations; a panic (caught, keyed by decoder and panic site) or an allocation above 64*len+64KiB is a violation. Totality failures are triggered by specific lengths/counts, which is exactly what systematic truncation and count corruption enumerate.",
          "The golden-ticket payload decoder is exercised as it is reachable: through the transaction decoder for GoldenTicket-typed transactions. ApiMessage is exercised through Message (its only caller). Allocation is measured by a process-wide counting allocator in a single-threaded run.",
          "DESIGN.md §3 C10"),
+ "C03": ("exploration",
+         "model-based testing against an independent UTXO replay: exhaustive enumeration of small block trees x golden-ticket masks x all delivery permutations, plus proptest-generated trees/orders/duplicates/invalid blocks with shrinking",
+         "After every single delivery the node's by-height index, per-block on-chain flags, reported tip and utxoset are compared with an independently written replay (BTreeMap ledger) of the ancestor path of the reported tip. Small trees are enumerated completely in every delivery order, so arrival-order-specific bookkeeping bugs in that sub-space cannot hide; random trees (to 16 blocks, conflicting spends on sibling branches, invalid blocks, duplicates, orphans) reach repeated back-and-forth reorganisations.",
+         "Blocks are built by honest producers following each branch (the repository's Block::create). Entries older than the 2*genesis_period purge horizon are not compared. Histories on which add_block panics, diverges or leaves a trace after a rejection are attributed to C04. Open known finding F10 (orphan path with initial_loading_completed=false) is keyed by cause.",
+         "DESIGN.md §3 C03"),
+ "C04": ("fault_enumeration",
+         "systematic fault enumeration over (fork shape, offending position, kind of invalidity, chain content) with a full before/after state snapshot oracle and a deterministic step-count bound (hook H1)",
+         "Every combination of main-chain length, fork depth, position of the invalid block in the candidate chain (first/middle/last) and 16 kinds of invalidity is built with real signed blocks and delivered; any delivery that is not accepted must leave tip, utxoset, chain index, stored blocks and wallet bit-identical, the wind/unwind loop must finish within 2(|old|+|new|)+2 iterations (counted by the cfg-guarded hook), and the tip must never move onto a chain containing the invalid block.",
+         "Children of the invalid block are produced by a harness-side builder that treats the invalid block as accepted; the step counter is hook H1 (cfg saito_verif), which also turns a livelock into a verdict instead of a hang.",
+         "DESIGN.md §3 C04"),
 }
 NOT_YET = {}
 
@@ -60,6 +70,6 @@ def main():
     json.dump(m, open(os.path.join(HERE, "MANIFEST.json"), "w"), indent=1)
     print("MANIFEST.json:", len(checks), "checks,", len(na), "not_applicable")
 
-HOOK_COMMITS = []
+HOOK_COMMITS = ["6dbdc32"]
 if __name__ == "__main__":
     main()
